@@ -380,8 +380,8 @@ func runC16(r *rep.R) {
 		for i := 0; i < chunks; i++ {
 			raw = append(raw, sixteen...)
 		}
-		doCS(c16CS{Raw: append(raw, 0xC1, 0x09), Malformed: true})       // OEM record cut right after a chunk boundary
-		doCS(c16CS{Raw: append(raw, 0xC0), Malformed: true})             // lone start byte in a chunk of its own
+		doCS(c16CS{Raw: append(raw, 0xC1, 0x09), Malformed: true})        // OEM record cut right after a chunk boundary
+		doCS(c16CS{Raw: append(raw, 0xC0), Malformed: true})              // lone start byte in a chunk of its own
 		doCS(c16CS{Raw: append(raw[:len(raw)-1], 0x00), Malformed: true}) // last algorithm byte replaced by an authentication-tagged byte: not a record start
 	}
 	// DCMI sensor info
